@@ -1133,6 +1133,60 @@ func (c *tctx) fragment(body *ast.BlockStmt) (string, string, string) {
 			p = por(p, "("+prefix+pp+")")
 		}
 		return "(" + prefix + "if " + cv + " then " + av + " else " + bv + ")", ty, p
+	case "exits_before":
+		// how many return / break / continue / goto statements precede (in source order, inside the innermost function
+		// literal or the function body) the first call whose function text starts with t.Pick: 0 means the call is
+		// reached on every path that does not panic
+		count, seen := -1, false
+		var scanFn func(b *ast.BlockStmt) bool
+		scanFn = func(b *ast.BlockStmt) bool {
+			exits := 0
+			hit := false
+			var stack []ast.Node
+			ast.Inspect(b, func(nd ast.Node) bool {
+				if nd == nil {
+					stack = stack[:len(stack)-1]
+					return true
+				}
+				if hit {
+					return false
+				}
+				switch y := nd.(type) {
+				case *ast.FuncLit:
+					if scanFn(y.Body) {
+						hit = true
+					}
+					return false
+				case *ast.ReturnStmt:
+					exits++
+				case *ast.BranchStmt:
+					exits++
+				case *ast.CallExpr:
+					if strings.HasPrefix(norm(c.fset, y.Fun), t.Pick) {
+						depth := 0 // conditionals and loops that enclose the call inside this function body
+						for _, p := range stack {
+							switch p.(type) {
+							case *ast.IfStmt, *ast.ForStmt, *ast.RangeStmt, *ast.SwitchStmt, *ast.TypeSwitchStmt, *ast.SelectStmt:
+								depth++
+							}
+						}
+						if is, ok := stack[len(stack)-1].(*ast.IfStmt); ok && is.Cond == ast.Expr(y) {
+							depth-- // the call IS the condition of that if: it is evaluated unconditionally
+						}
+						count, hit = exits*1000+depth, true
+						return false
+					}
+				}
+				stack = append(stack, nd)
+				return true
+			})
+			return hit
+		}
+		seen = scanFn(body)
+		if !seen {
+			fail("no call of %s in %s", t.Pick, t.Func)
+		}
+		return fmt.Sprint(count), "int", "false"
 	case "effects":
 		// the store writes of the function, in source order: "Set:<key builder>" / "Delete:<key builder>"
 		var effs []string
